@@ -63,6 +63,9 @@ fn recv_source(r: &Recv) -> String {
         } else {
             s.push_str(&format!("impl From<syn::Ident> for {} {{ fn from(i: syn::Ident) -> Self {{ {} {{ ident: syn::Ident::new(\"changed\", i.span()), k: Some(99) }} }} }}\n", r.name, r.name));
         }
+        // a `Default` impl exists as well and must not be what fills `k`
+        let dflt_ident = if r.tr8 == "FromField" { "None" } else { "syn::parse_str::<syn::Ident>(\"dflt\").unwrap()" };
+        s.push_str(&format!("impl Default for {} {{ fn default() -> Self {{ {} {{ ident: {dflt_ident}, k: Some(7) }} }} }}\n", r.name, r.name));
     } else {
         s.push_str("    #[darling(default)] pub k: Option<u32>,\n}\n");
     }
